@@ -166,11 +166,13 @@ def laws(stats: Stats, toks, rng, origin):
         stats.fail("join:raised2:%s" % type(ex).__name__, case, str(ex))
 
 
-def t_exhaustive(shard, nshards):
+def t_exhaustive(shard, nshards, maxlen=3):
     stats = Stats()
     n = 0
     rng = random.Random(shard)
     seqs = [()] + [(a,) for a in ALPHA] + list(itertools.product(ALPHA, repeat=2)) + list(itertools.product(ALPHA, repeat=3))
+    if maxlen >= 4:
+        seqs += list(itertools.product(ALPHA, repeat=4))
     for i, toks in enumerate(seqs):
         if i % nshards != shard:
             continue
@@ -193,7 +195,7 @@ def t_exhaustive(shard, nshards):
                                        "tokens %r (%s) and %r (%s) give equal pointers" % (ta, ra, tb, rb))
                     except Exception:  # noqa: BLE001  (reported by laws())
                         pass
-    stats.subspaces.append({"name": "token sequences of length <= 3 over the 20-token alphabet, shard %d/%d; one-token-different pairs x routes" % (shard, nshards),
+    stats.subspaces.append({"name": "token sequences of length <= %d over the 20-token alphabet, shard %d/%d; one-token-different pairs x routes" % (maxlen, shard, nshards),
                             "size": n, "exhaustive": True})
     return stats
 
@@ -315,12 +317,15 @@ def replay_history(stats, hist):
 
 
 def tasks(tier, seed):
-    ts = [{"name": "exhaustive-%d" % k, "fn": "t_exhaustive", "kw": {"shard": k, "nshards": 12}} for k in range(12)]
-    n = 1500 if tier == "quick" else 30000
-    for k in range(2):
+    if tier == "quick":
+        ts = [{"name": "exhaustive-%d" % k, "fn": "t_exhaustive", "kw": {"shard": k, "nshards": 10}} for k in range(10)]
+    else:
+        ts = [{"name": "exhaustive4-%d" % k, "fn": "t_exhaustive", "kw": {"shard": k, "nshards": 48, "maxlen": 4}} for k in range(48)]
+    n = 4000 if tier == "quick" else 40000
+    for k in range(3 if tier == "quick" else 8):
         ts.append({"name": "random-%d" % k, "fn": "t_random", "kw": {"seed": mix(seed, ID, k), "n": n}})
-    for k in range(2):
-        ts.append({"name": "machine-%d" % k, "fn": "t_machine", "kw": {"seed": mix(seed, ID, "m", k), "n": 300 if tier == "quick" else 6000}})
+    for k in range(3 if tier == "quick" else 8):
+        ts.append({"name": "machine-%d" % k, "fn": "t_machine", "kw": {"seed": mix(seed, ID, "m", k), "n": 600 if tier == "quick" else 8000}})
     return ts
 
 
